@@ -14,6 +14,13 @@ Definition L_NS : N := 100000000.      (* channel latency *)
 Record mcfg := { c_parent : N; c_npe : N; c_nsend : N; c_selfd : list N; c_tasks : list N;
                  c_trig : N; c_trign : N; c_trigd : N; c_ngates : N; c_endsend : bool }.
 
+(* what the module is built from: 0 the scripted Module; builder blocks of net/runtime/blocks.rs:
+   1 AsyncFn::new  2 AsyncFn::failable  3 AsyncFn::io  4 ModuleFn::failable  5 HandlerFn::failable.
+   A block module has no processing elements of its own, sends nothing and spawns nothing but the
+   block's own task. *)
+Definition c_kind (c : mcfg) : N := (c_trig c / 4) mod 6.
+Definition is_async_kind (k : N) : bool := (1 <=? k) && (k <=? 3).
+
 Record modrec := {
   m_cfg : mcfg; m_ctx : nat; m_proc : nat; m_queue : nat; m_depth : nat;
   m_rt : option nat;                       (* the module's tokio runtime, once built *)
@@ -284,15 +291,35 @@ Definition do_spawn (w : world) (i : nat) (d : N) : world :=
 
 Fixpoint repeat_n {A} (n : nat) (f : A -> A) (a : A) : A := match n with O => a | S k => repeat_n k f (f a) end.
 
-(* Module::at_sim_start(0), inside Harness::exec *)
+(* ModuleFn: `self.current = Some((self.gen)())` (blocks.rs:221-223): the new state is stored, the
+   old one (if any) dropped; reset: `self.current = None` (blocks.rs:217-219) *)
+Definition drop_fn_state (w : world) (i : nat) : world :=
+  match p_detach (w_st w) (m_proc (getm w i)) (fun e => kf (ek e) 0) with
+  | (s1, Some x) => wset_st w (p_release s1 x)
+  | (s1, None) => wset_st w s1
+  end.
+Definition new_fn_state (w : world) (i : nat) : world :=
+  let '(s1, el) := p_alloc (w_st w) (TElem (N.of_nat i * 8 + 7)) in
+  let w1 := drop_fn_state (wset_st w s1) i in
+  wst w1 (fun s => p_move_in s (m_proc (getm w i)) (KField 0) el).
+
+(* Module::at_sim_start(0), inside Harness::exec.  AsyncFn (blocks.rs:399-415): the generated
+   future is spawned on the module's runtime; it waits on the block's receiver.  The future holds
+   no handle to the module context: `current()` is only called in the error path
+   (blocks.rs:355). *)
 Definition at_sim_start (w : world) (i : nat) : world :=
   let c := m_cfg (getm w i) in
   let w0 := ensure_rt w i in
-  let w1 := wlog w0 i 1 0 in
-  let w2 := repeat_n (N.to_nat (c_nsend c)) (fun wa => do_send wa i) w1 in
-  let w3 := fold_left (fun wa d => do_schedule wa i d) (c_selfd c) w2 in
-  let w4 := fold_left (fun wa d => do_spawn wa i d) (c_tasks c) w3 in
-  poll_tasks w4 i.
+  let k := c_kind c in
+  if k =? 0 then
+    let w1 := wlog w0 i 1 0 in
+    let w2 := repeat_n (N.to_nat (c_nsend c)) (fun wa => do_send wa i) w1 in
+    let w3 := fold_left (fun wa d => do_schedule wa i d) (c_selfd c) w2 in
+    let w4 := fold_left (fun wa d => do_spawn wa i d) (c_tasks c) w3 in
+    poll_tasks w4 i
+  else if is_async_kind k then poll_tasks (do_spawn (wlog w0 i 1 0) i 0) i
+  else if k =? 4 then poll_tasks (new_fn_state (wlog w0 i 1 0) i) i
+  else poll_tasks w0 i.
 
 (* buf_process (runtime/ctx.rs:110-153) *)
 Definition buf_process (w : world) (i : nat) : world :=
@@ -310,7 +337,9 @@ Definition buf_process (w : world) (i : nat) : world :=
                                      (map (fun p => (fst p, @nil nat)) (m_slots r)) [] [] [] None) in
       (* module.activate(); module.reset(); module.deactivate(rt) *)
       let w4 := activate w3 i in
-      let w5 := poll_tasks (wlog (ensure_rt w4 i) i 5 0) i in
+      let k := c_kind (m_cfg m) in
+      let w4r := ensure_rt w4 i in
+      let w5 := poll_tasks (if k =? 0 then wlog w4r i 5 0 else if k =? 4 then drop_fn_state w4r i else w4r) i in
       let w6 := deactivate w5 i in
       match restart with
       | Some t => let m6 := getm w6 i in
@@ -320,26 +349,70 @@ Definition buf_process (w : world) (i : nat) : world :=
       end
   end.
 
-(* ModuleRef::handle_message (events.rs:275-303) with the scripted handler *)
+(* the block's task ends: the runtime drops the finished (or panicked) future *)
+Definition end_block_task (w : world) (i : nat) (kind : N) : world :=
+  match m_tasks (getm w i) with
+  | (t, cap, _) :: _ =>
+      let w1 := wlog w i kind cap in
+      let w2 := match m_rt (getm w1 i) with
+                | Some r => wst w1 (fun s => drop_edge s r t)
+                | None => w1 end in
+      updm w2 i (fun r => mset_tasks r [] [] [])
+  | [] => w
+  end.
+
+(* ModuleRef::handle_message (events.rs:275-303) with the scripted handler, or with a builder block:
+   AsyncFn::handle_message = tx.try_send(msg) (blocks.rs:417-421), the task receives it in the same
+   executor turn; ModuleFn / HandlerFn call the user's handler (blocks.rs:225-230, 76-78), the
+   failable variants apply their FailabilityPolicy (blocks.rs:54-68, 125-141) *)
 Definition handle_message (w : world) (i : nat) (msg : nat) : world :=
   let m := getm w i in
   if negb (m_active m) then wrel w msg
   else
     let w0 := ensure_rt w i in
+    let c := m_cfg m in
+    let k := c_kind c in
+    if is_async_kind k && match m_tasks m with [] => true | _ => false end then
+      poll_tasks (wrel w0 msg) i            (* the receiver is gone: try_send fails, the message is dropped *)
+    else
     let pay := match tag_of (whp w0) msg with Some (TMsg p) => p | _ => 0 end in
     let w1 := wrel (wlog w0 i 2 pay) msg in
     let n := m_handled m + 1 in
     let w2 := updm w1 i (fun r => mset_handled r n) in
-    let c := m_cfg m in
+    let panic w2 := (* Harness::catch marks the module inactive; HOST stereotype: the error is kept *)
+      let w3 := updm w2 i (fun r => mset_active r false) in
+      wset_cnt w3 (w_nmsg w3) (w_ntask w3) (w_log w3) true in
     if n =? c_trign c then
-      match N.to_nat (c_trig c mod 4) with
-      | 1%nat => poll_tasks (updm w2 i (fun r => mset_shut r (Some None))) i
-      | 2%nat => poll_tasks (updm w2 i (fun r => mset_shut r (Some (Some (w_clock w + c_trigd c))))) i
-      | 3%nat => (* panic: Harness::catch marks the module inactive; HOST stereotype: the error is kept *)
-                 let w3 := updm w2 i (fun r => mset_active r false) in
-                 wset_cnt w3 (w_nmsg w3) (w_ntask w3) (w_log w3) true
-      | _ => poll_tasks w2 i
-      end
+      let tr := N.to_nat (c_trig c mod 4) in
+      if k =? 0 then
+        match tr with
+        | 1%nat => poll_tasks (updm w2 i (fun r => mset_shut r (Some None))) i
+        | 2%nat => poll_tasks (updm w2 i (fun r => mset_shut r (Some (Some (w_clock w + c_trigd c))))) i
+        | 3%nat => panic w2
+        | _ => poll_tasks w2 i
+        end
+      else if is_async_kind k then
+        match tr with
+        | 1%nat => poll_tasks (end_block_task w2 i 3) i                       (* the future returns *)
+        | 2%nat => poll_tasks (updm w2 i (fun r => mset_shut r (Some (Some (w_clock w + c_trigd c))))) i
+        | 3%nat => if k =? 1 then poll_tasks (end_block_task w2 i 3) i
+                   else (* the future returns Err: the wrapper panics inside the task; the JoinHandle
+                           reports it at the end of the simulation *)
+                     let w3 := end_block_task w2 i 6 in
+                     poll_tasks (wset_cnt w3 (w_nmsg w3) (w_ntask w3) (w_log w3) true) i
+        | _ => poll_tasks w2 i
+        end
+      else if k =? 4 then
+        match tr with
+        | 2%nat => poll_tasks (updm w2 i (fun r => mset_shut r (Some (Some (w_clock w))))) i   (* Restart: shutdow_and_restart_in(ZERO) *)
+        | 3%nat => panic w2
+        | _ => poll_tasks w2 i                                                                   (* Continue / no error *)
+        end
+      else
+        match tr with
+        | 3%nat => panic w2
+        | _ => poll_tasks w2 i
+        end
     else poll_tasks w2 i.
 
 Definition take_field (w : world) (e : nat) (f : N) : world * option nat :=
